@@ -140,6 +140,18 @@ JudgeDerive(e) ==
              ELSE {})
           ELSE {})]
 
+\* hdk.derive.seq : in = [steps = <<[seed, path]>>]   out.ok = [steps = <<outcome of hdk.derive>>]
+\* a history of derivations in one thread: derivation is a function of (seed, path), whatever was derived before
+JudgeDeriveSeq(e) ==
+  LET o == e.out
+      n == Len(e.in.steps)
+      shaped == IsOk(o) /\ Len(o.ok.steps) = n
+      js == [k \in 1..n |-> JudgeDerive([i |-> e.i, op |-> "hdk.derive", in |-> e.in.steps[k], out |-> o.ok.steps[k]])]
+  IN  [cls |-> "accept",
+       devs |-> CrashDevs(o) \cup
+         (IF ~shaped THEN {D({"C03"}, "history_not_answered", "")}
+          ELSE UNION {{D(d.props, "step_" \o ToString(k) \o "_of_history_" \o d.reason, d.detail) : d \in js[k].devs} : k \in 1..n})]
+
 \* key.new : in = [secret]   out.ok = [secret, pub, addr, addr_display, debug]
 JudgeKeyNew(e) ==
   LET o == e.out
@@ -157,6 +169,26 @@ JudgeKeyNew(e) ==
                   \cup (IF Hx(o.ok.addr) # AddressOf(d) THEN {D({"C04"}, "address_mismatch", o.ok.addr)} ELSE {})
                   \cup (IF StrToUtf8(o.ok.addr_display) # Eip55(AddressOf(d)) THEN {D({"C04"}, "eip55_mismatch", o.ok.addr_display)} ELSE {}))
           ELSE IF IsErr(o) THEN (IF cls = "accept" THEN {D({"C04"}, "rejected_valid_secret", o.err)} ELSE {})
+          ELSE {})]
+
+\* key.sign.bulk : in = [secret, seed, from, count, chunk]   out.ok = [chunks = <<hex of SHA-256 per chunk>>]
+\* every chunk hash must be the hash of the specification's signatures of the same digests
+JudgeKeySignBulk(e) ==
+  LET o   == e.out
+      d   == Hx(e.in.secret)
+      sd  == Hx(e.in.seed)
+      nch == (e.in.count + e.in.chunk - 1) \div e.in.chunk
+      len(c) == IF c * e.in.chunk <= e.in.count THEN e.in.chunk ELSE e.in.count - (c - 1) * e.in.chunk
+      shaped == IsOk(o) /\ Len(o.ok.chunks) = nch
+      bad == IF shaped THEN {c \in 1..nch : Hx(o.ok.chunks[c]) # BulkSignHash(d, sd, e.in.from + (c - 1) * e.in.chunk, len(c))} ELSE {}
+  IN  [cls |-> "accept",
+       devs |-> CrashDevs(o) \cup
+         (IF ~shaped THEN {D({"C05"}, "bulk_signing_failed", "")}
+          ELSE IF bad # {} THEN
+            LET c == CHOOSE x \in bad : \A y \in bad : x <= y
+            IN  {D({"C05"}, "bulk_signatures_differ_from_rfc6979",
+                   ToString(Cardinality(bad)) \o " chunk(s); first: " \o ToString(len(c)) \o " digests from counter "
+                   \o ToString(e.in.from + (c - 1) * e.in.chunk))}
           ELSE {})]
 
 \* key.sign : in = [secret, digest]   out.ok = [r, s, par, display, again, addr]
@@ -558,6 +590,8 @@ JudgeEvent(e) ==
          [] e.op = "hdk.derive"      -> JudgeDerive(e)
          [] e.op = "key.new"         -> JudgeKeyNew(e)
          [] e.op = "key.sign"        -> JudgeKeySign(e)
+         [] e.op = "key.sign.bulk"   -> JudgeKeySignBulk(e)
+         [] e.op = "hdk.derive.seq"  -> JudgeDeriveSeq(e)
          [] e.op = "sig.parse"       -> JudgeSigParse(e)
          [] e.op = "message"         -> JudgeMessage(e)
          [] e.op = "typeddata"       -> JudgeTypedData(e)
